@@ -167,6 +167,50 @@ theorem C06_importWorker_guard (len : Nat) (s : String) : importWorkerGuard len 
     · simp [h]
     · simp
 
+/-! ### PQL text: the recover filter of parser.Parse over the panic sites of the action machine
+
+The PEG grammar and the action machine are modelled by C26 (lean/PV/C26); here the table of
+panic sites of pql/ast.go and the filter of pql/parser.go are regenerated from the source. -/
+
+/-- A message that starts with a filtered prefix is returned as an error. -/
+theorem parseFilter_prefix (p : String) (hp : p ∈ pqlFilterPrefixes) (tail : List Char) (s : String) :
+    parseFilter (.str (p.toList ++ tail)) ≠ .panic s := by
+  have : (pqlFilterPrefixes.any fun q => q.toList.isPrefixOf (p.toList ++ tail)) = true := by
+    apply List.any_eq_true.mpr
+    exact ⟨p, hp, List.isPrefixOf_iff_prefix.mpr (List.prefix_append _ _)⟩
+  simp only [parseFilter]
+  rw [if_pos this]
+  simp
+
+/-- Every panic site of the action machine whose message starts with a named string constant
+(duplicate argument, integer out of range, invalid string literal — whatever the current source
+has) is one the filter converts into an error, whatever follows the constant in the message; and
+a runtime error inside Execute is returned as an error too. -/
+theorem C06_pql_named_panics_converted :
+    (∀ site ∈ pqlPanicSites, site.2.1 = "const" →
+      ∀ (tail : List Char) (s : String), parseFilter (.str (site.2.2.toList ++ tail)) ≠ .panic s)
+    ∧ (∀ s, parseFilter .nonString ≠ .panic s) ∧ (∀ s, parseFilter .none ≠ .panic s) := by
+  have hall : ∀ site ∈ pqlPanicSites, site.2.1 = "const" → site.2.2 ∈ pqlFilterPrefixes := by decide
+  refine ⟨fun site hs hk tail s => parseFilter_prefix _ (hall site hs hk) tail s, ?_, ?_⟩
+  · intro s
+    have : pqlNonStringIsError = true := by decide
+    simp [parseFilter, this]
+  · intro s; simp [parseFilter]
+
+/-- Full-strength statement (NOT proved here): `Parse` never re-panics, i.e. the remaining panic
+sites of the action machine (kind `invariant`: "conditional of wrong length", "addField called
+… while element is nil / field is not empty", "addVal / addIntVal called … when lastField is
+empty") are unreachable for every action trace the grammar can emit.  That is a property of the
+grammar together with the action machine (C26 models both; its `repanic` outcome is exactly
+these sites) and is observed, not proved: no `pql` line of the malformed-text stream has ever
+produced a panic.  Where PQL text reaches the server (the HTTP query endpoints) a re-panic would be
+inside the handler's recovered request.  Proved: the filter does re-panic exactly those sites —
+the excluded region is this finite list. -/
+theorem C06_pql_filter_partial :
+    ∀ site ∈ pqlPanicSites, site.2.1 = "invariant" →
+      parseFilter (.str site.2.2.toList) = .panic "repanic" := by
+  decide
+
 /-! ### non-vacuity -/
 
 /-- A payload that is rejected after its first container was walked (hypothesis of
